@@ -390,6 +390,17 @@ func unicodeEscapes(c *explore.Ctx) {
 			}
 		}
 	}
+	// every byte value at this digit position (single deviation from \u0041)
+	for v := 0; v < 256; v++ {
+		digits := []byte("0041")
+		digits[pos] = byte(v)
+		doc := []byte(`"` + strings.Repeat("a", pad) + `\u` + string(digits) + strings.Repeat("b", tailLen) + `"`)
+		checkValid(c, "unicode-escape", doc)
+		cnt++
+		if pad < 2 && tailLen == 0 {
+			consumers(c, doc)
+		}
+	}
 	c.Inner(cnt)
 	c.Nontrivial(uint64(pad)<<16 | uint64(tailLen)<<8 | uint64(pos))
 	c.Outcome("escapes")
@@ -442,6 +453,78 @@ func numbers(c *explore.Ctx) {
 	}
 }
 
+// ---- family: Decoder framing across buffer refills (32 KiB initial buffer, doubling)
+
+var refillFirst = []string{"plain", "backslash", "nonprint"}
+var refillLater = []string{`"plain"`, `"x\"y"`, `"x\\"`, "\"x\x7fy\"", `"é"`, "\"x\x01y\"", `"x\qy"`, `{"k\"":"v\\"}`, `"unterminated`}
+
+func decoderRefill(c *explore.Ctx) {
+	first := c.Choose(len(refillFirst))
+	later := refillLater[c.Choose(len(refillLater))]
+	shape := c.Choose(3) // 0: one big array value; 1: stream of values; 2: one big object value
+	delta := c.Choose(25) - 12
+	// head: content that fills the first buffer (32768 bytes) up to boundary+delta
+	boundary := 32768
+	var head string
+	switch refillFirst[first] {
+	case "plain":
+		head = `"aaaaaaa"`
+	case "backslash":
+		head = `"aaa\\aa"`
+	case "nonprint":
+		head = "\"aaa\x7faaa\""
+	}
+	var sb strings.Builder
+	sep := ","
+	switch shape {
+	case 0:
+		sb.WriteString("[")
+	case 1:
+		sep = "\n"
+	case 2:
+		sb.WriteString(`{"a":[`)
+	}
+	sb.WriteString(head)
+	filler := `"bbbbbbb"`
+	for sb.Len()+len(sep)+len(filler)+len(sep) <= boundary+delta-1 {
+		sb.WriteString(sep)
+		sb.WriteString(filler)
+	}
+	// pad with spaces so that the interesting token starts exactly at boundary+delta
+	sb.WriteString(sep)
+	for sb.Len() < boundary+delta {
+		sb.WriteString(" ")
+	}
+	sb.WriteString(later)
+	sb.WriteString(sep)
+	sb.WriteString(`"tail"`)
+	switch shape {
+	case 0:
+		sb.WriteString("]")
+	case 2:
+		sb.WriteString("]}")
+	}
+	doc := []byte(sb.String())
+	checkValid(c, "refill-doc", doc)
+	s, r := drainSeg(doc), drainStd(doc)
+	site := "Decoder-refill"
+	if len(s.vals) != len(r.vals) || s.eof != r.eof {
+		c.Fail(fmt.Sprintf("%s:values-differ:eof=%v/%v:first=%s", site, s.eof, r.eof, refillFirst[first]), "%s: %d-byte stream (first buffer %s, then %s at offset %d): segmentio yields %d values (clean EOF %v), encoding/json %d (clean EOF %v)", site, len(doc), refillFirst[first], later, boundary+delta, len(s.vals), s.eof, len(r.vals), r.eof)
+	} else {
+		for i := range s.vals {
+			if s.vals[i] != r.vals[i] {
+				c.Fail(site+":value-bytes", "%s: value %d differs (len %d vs %d)", site, i, len(s.vals[i]), len(r.vals[i]))
+				break
+			}
+		}
+	}
+	c.NontrivialStr("refill", refillFirst[first], later, fmt.Sprint(shape, delta))
+	c.Outcome(fmt.Sprintf("values=%d eof=%v", min(len(r.vals), 2), r.eof))
+	if c.WantSample() {
+		c.Case(map[string]any{"first_buffer": refillFirst[first], "token_after_boundary": later, "token_offset": boundary + delta, "shape": shape, "stream_len": len(doc)})
+	}
+}
+
 // ---- family: nesting ladder
 
 func nesting(c *explore.Ctx) {
@@ -489,6 +572,7 @@ func Spec() *explore.Spec {
 			{Name: "string-sweep", ShardDepth: 2, Body: stringSweep, Doc: "string body length 0..40/72 x every position x all 256 byte values x 5 input-wide contexts; escapes at every position"},
 			{Name: "unicode-escapes", ShardDepth: 2, Body: unicodeEscapes, Doc: "\\uXXXX with every pair of hex-digit classes at every digit position, at every offset 0..18"},
 			{Name: "numbers", ShardDepth: 3, Body: numbers, Doc: "all strings up to length 6 over {- + 0 1 9 . e E} in 4 contexts"},
+			{Name: "decoder-refill", ShardDepth: 2, Body: decoderRefill, Doc: "streams longer than the Decoder's 32 KiB buffer: first-buffer content class x token class placed at every offset -12..+12 around the refill boundary x 3 stream shapes, framing compared with encoding/json"},
 			{Name: "nesting", ShardDepth: 2, Body: nesting, HangSeconds: 300, Doc: "nesting ladder 1..100000 x 4 container kinds x balanced / missing / surplus closer"},
 		},
 		Rule: "exhaustive enumeration of byte strings / token sequences over class alphabets plus complete single-deviation sweeps; distinct non-trivial = distinct valid documents (hashed) and sweep blocks",
